@@ -18,6 +18,7 @@ inductive Err
   | notImpl
   | badOp     -- malformed case: never defaulted
   | unbound   -- program variable not bound (an earlier operation failed)
+  | misaligned -- a loader read that does not land on a record of the requested type
   deriving DecidableEq, Repr, Inhabited
 
 def Err.toString : Err → String
@@ -30,6 +31,7 @@ def Err.toString : Err → String
   | .notImpl => "NotImpl"
   | .badOp => "bad-op"
   | .unbound => "unbound"
+  | .misaligned => "misaligned"
 
 instance : ToString Err := ⟨Err.toString⟩
 
